@@ -78,6 +78,7 @@ func c20E2E(key string) (lines []string, errText string, panics []string) {
 }
 
 func c20Check(r *vkit.Run, in c20Input) {
+	r.Begin("C20", in)
 	key := in.Key
 	r.Eval()
 	r.Step(len(key) + 1)
